@@ -37,6 +37,7 @@ func round12(c *Ctx, r *Report, p string) {
 	case "C15":
 		ixfrReadByIxfr(c, r, "C15.R2.reader-by-question")
 	case "C13":
+		noNestedAcquire(c, r, "C13.R2.no-nested-acquire")
 		startedNotClearedByLoops(c, r, "C13.R4.started-not-cleared-by-loops")
 	case "C14":
 		matchFromRegistry(c, r, "C14.R3.match-from-registry")
